@@ -8,6 +8,8 @@ import ApolloModel.Proofs.ExecRules3
 import ApolloModel.Proofs.ExpandSelections
 import ApolloModel.Proofs.ExpandSelections2
 import ApolloModel.Proofs.ExecValues
+import ApolloModel.Proofs.ExecWalk2
+import ApolloModel.Proofs.StandaloneWalk3
 /-
 C17 — Executable validation agrees with the specification.
 
@@ -29,15 +31,17 @@ INVENTORY — every rule of the oracle harness/src/specexec.rs and its Lean coun
                                             expand_selections_iff_spec + merging_from_selection_sets (the expansion itself; c17.expand)
                                                                                           c17.merge/.mergecached/.mergespec/.shape/.samevalue
   §5.3.3   LeafFieldSelections              field_selections_iff_spec (no sub-selection on a leaf); missing_subselection_iff_spec
-                                            (a composite field needs one; at the field node)   c17.fields
+                                            (a composite field needs one; at the field node); missing_subselection_iff_spec_doc (whole tree)   c17.fields
   §5.4.1   ArgumentNames                    argument_names_iff_spec                       c17.args
   §5.4.2   ArgumentUniqueness               argument_uniqueness_iff_spec                  c17.args
   §5.4.2.1 RequiredArguments                required_arguments_iff_spec                   c17.args
   §5.5.1.1 FragmentNameUniqueness           fragment_name_uniqueness_iff_spec; unconditional with §5.5.1.2: fragment_definitions_iff_spec   c17.frags
   §5.5.1.2 FragmentSpreadTypeExistence      inline conditions: field_selections_iff_spec; named: fragment_definitions_iff_spec   c17.frags
-  §5.5.1.3 FragmentsOnCompositeTypes        fragments_on_composite_types_iff_spec, inline_fragment_on_composite_type_spec (at the node)   c17.frags
+  §5.5.1.3 FragmentsOnCompositeTypes        fragments_on_composite_types_iff_spec, inline_fragment_on_composite_type_spec (at the node);
+                                            fragments_on_composite_types_iff_spec_doc (whole tree of an operation)   c17.frags
   §5.5.1.4 FragmentsMustBeUsed              used_fragments_iff                            c17.unusedfrag, c17.frags
-  §5.5.2.1 FragmentSpreadTargetDefined      fragment_spread_target_defined_iff_spec (at the spread); C18 valid_leaf_shape_spreads_defined_partial   c17.frags
+  §5.5.2.1 FragmentSpreadTargetDefined      fragment_spread_target_defined_iff_spec (at the spread); fragment_spread_target_defined_iff_spec_doc
+                                            (whole tree of an operation); C18 valid_leaf_shape_spreads_defined_partial   c17.frags
   §5.5.2.2 FragmentSpreadsMustNotFormCycles C21 fragment_cycle_sound (+ C18)              c17.frags
   §5.5.2.3 FragmentSpreadIsPossible         fragment_spread_possible_iff_spec, possible_types_spec   c17.frags
   §5.6.1–4 ValuesOfCorrectType, InputObjectFieldNames / FieldUniqueness / RequiredFields
@@ -47,6 +51,10 @@ INVENTORY — every rule of the oracle harness/src/specexec.rs and its Lean coun
                                             argument_value_iff_spec_no_nested (against §5.6 + §5.8.5 IsVariableUsageAllowed when no variable
                                             stands inside a literal), spec_argument_value_accepted (spec ⇒ code always),
                                             nested_position_value_witness (why the guard); same_value_* above   c17.values
+  THE WALK  (document level)                 walk_meets_every_argument (typed rules quiet for the document ⇔ every reachable argument passes argDiags with its
+                                            own definition and its operation's variables, every reachable spread is possible), typed_walk_quiet_iff_reachable_sites,
+                                            walk_reports_iff_reachable_site (structural walk: reported ⇔ a reachable site reports it), validate_operation_walk;
+                                            soundness + completeness, fuel shown sufficient, no hypothesis on the document   c17.vars/.frags/.fields/.args
   §5.7.1–3 DirectivesAreDefined / InValidLocations / UniquePerLocation
                                             C14 directive_applications_rule_iff_spec on the shared `dirDiags` (cited)   c20.schema
   §5.8.1   VariableUniqueness               variable_uniqueness_iff_spec                  c17.vars
@@ -565,6 +573,80 @@ theorem top_level_variable_value_witness :
 
 end Values56
 
+/-! DOCUMENT LEVEL: where the rules are applied.  A site is one call of a per-node check; `Reaches` lists the sites
+    of an operation — its own selection set and, through spreads at any depth, the definitions and bodies of the
+    fragments it reaches (the walk skips what the code skips: the sub-selection of an undefined field, the body of a
+    fragment whose type condition is not composite or that is on a spread cycle). -/
+section DocumentLevel
+
+/-- **the walk meets every argument** (typed rules, no hypothesis on schema or document): `validate_operation`
+    for every operation of the document reports nothing of §5.6 (as far as `Model/ExecRules.lean` models it: the
+    variable arms and the shapes), §5.8.3, §5.8.5, §5.5.2.3 EXACTLY when every argument of every field and directive
+    the operation reaches — handed to the per-argument check `argDiags` (= `validate_variable_usage` +
+    `value_of_correct_type`, the call `argument_value_iff_spec` describes) with the definition its field has on the
+    field's parent type, or its directive definition's, and with THAT operation's variable definitions — passes, and
+    every reachable spread / inline fragment is possible.  Soundness is by induction on the walk; completeness needs
+    that `validated_fragments` never makes the walk skip a fragment it has not validated for this operation and that
+    the recursion fuel of the model (number of fragment definitions) never runs out (pigeonhole on the marked names). -/
+theorem walk_meets_every_argument (s : RSchema) (ast : RAst) :
+    typedDiags s ast = [] ↔
+      ∀ o ∈ (ExecRules.build s ast).ops,
+        (∀ d a, (Site.dirs o.dirs).HasArg s d a → argDiags s o.vars d a = []) ∧
+        (∀ v ∈ o.vars, ∀ d a, (Site.dirs v.dirs).HasArg s d a → argDiags s [] d a = []) ∧
+        ∀ site, Reaches s (ExecRules.build s ast) (s.root o.ty) o.sels site →
+          (∀ d a, site.HasArg s d a → argDiags s o.vars d a = []) ∧ (∀ t c, site = .spread t c → spreadDiags s t c = []) :=
+  ExecRules.walk_meets_every_argument s ast
+
+/-- one operation's walk, typed rules: quiet iff every reachable site is -/
+theorem typed_walk_quiet_iff_reachable_sites (s : RSchema) (doc : RBuilt) (vars : List RVarDef) (ty : Option String) (t : RSels) :
+    (ExecRules.walkSels s doc vars (ExecRules.enterFrag s doc vars doc.frags.length) ty t []).1 = [] ↔
+      ∀ site, Reaches s doc ty t site → site.diags s vars = [] :=
+  walk_quiet_iff s doc vars ty t
+
+/-- the structural walk (`validate_selection_set` with `validate_field`, `validate_fragment_spread`,
+    `validate_inline_fragment`, `validate_fragment_definition`; schema present): a diagnostic is reported for an
+    operation EXACTLY when one of the sites the operation reaches reports it — every diagnostic, whatever else is
+    wrong in the document -/
+theorem walk_reports_iff_reachable_site (p : Standalone.Params) (sc : Standalone.Schema) (doc : Standalone.BuiltDoc)
+    (ty : Option Nat) (t : Standalone.Sels) (d : Standalone.Diag) (hd : d ≠ .outOfFuel) :
+    d ∈ Standalone.Walk.walkOut p sc doc ty t ↔
+      ∃ site, Standalone.Walk.Reaches sc doc ty t site ∧ d ∈ site.diags p sc doc :=
+  Standalone.Walk.walk_mem_iff p sc doc ty t d hd
+
+/-- §5.3.3 Leaf Field Selections, second half, for the whole tree of an operation: `MissingSubselection` is reported
+    iff the operation reaches a field written without sub-selection whose type (on its parent type) is composite -/
+theorem missing_subselection_iff_spec_doc (p : Standalone.Params) (sc : Standalone.Schema) (doc : Standalone.BuiltDoc)
+    (ty : Option Nat) (t : Standalone.Sels) :
+    .missingSubselection ∈ Standalone.Walk.walkOut p sc doc ty t ↔
+      ∃ t0 name dirs args fd, Standalone.Walk.Reaches sc doc ty t (.field (some t0) name dirs args true) ∧
+        sc.field t0 name = some fd ∧ sc.kind fd.ty = some .composite :=
+  Standalone.Walk.missing_subselection_iff_doc p sc doc ty t
+
+/-- §5.5.2.1 Fragment Spread Target Defined, for the whole tree of an operation -/
+theorem fragment_spread_target_defined_iff_spec_doc (p : Standalone.Params) (sc : Standalone.Schema) (doc : Standalone.BuiltDoc)
+    (ty : Option Nat) (t : Standalone.Sels) :
+    .undefinedFragment ∈ Standalone.Walk.walkOut p sc doc ty t ↔
+      ∃ f dirs, Standalone.Walk.Reaches sc doc ty t (.spread f dirs) ∧ doc.findFrag f = none :=
+  Standalone.Walk.spread_target_defined_iff_doc p sc doc ty t
+
+/-- §5.5.1.3 Fragments On Composite Types, for the whole tree of an operation: inline fragments and the definitions
+    of the fragments it reaches -/
+theorem fragments_on_composite_types_iff_spec_doc (p : Standalone.Params) (sc : Standalone.Schema) (doc : Standalone.BuiltDoc)
+    (ty : Option Nat) (t : Standalone.Sels) :
+    .invalidFragmentTarget ∈ Standalone.Walk.walkOut p sc doc ty t ↔
+      (∃ c dirs, Standalone.Walk.Reaches sc doc ty t (.inline (some c) dirs) ∧ sc.kind c ≠ some .composite) ∨
+        (∃ fr, Standalone.Walk.Reaches sc doc ty t (.fragDef fr) ∧ sc.kind fr.tc ≠ some .composite) :=
+  Standalone.Walk.fragments_on_composite_types_iff_doc p sc doc ty t
+
+/-- `walkOut` is the walk summand of `validate_operation` -/
+theorem validate_operation_walk (p : Standalone.Params) (sc : Standalone.Schema) (doc : Standalone.BuiltDoc) (o : Standalone.Op) :
+    Standalone.validateOp p (some sc) doc o =
+      Standalone.dirDiags p (some sc) o.ty.loc o.dirs ++ Standalone.varDefDiags p (some sc) [] o.vars ++
+        Standalone.unusedVarDiags doc o ++ Standalone.Walk.walkOut p sc doc (sc.root o.ty) o.sels :=
+  Standalone.Walk.validateOp_walk p sc doc o
+
+end DocumentLevel
+
 /-- THE COVERED RULES, TOGETHER (partial: see the inventory at the top for what stays outside —
     the directive rules (C14), fragment cycles (C21), merging and subscriptions (sections 1–5),
     FragmentsOnCompositeTypes / FragmentSpreadTargetDefined / MissingSubselection (model + stream)).
@@ -574,7 +656,12 @@ end Values56
     specification rules fail; likewise each operation's variable definitions, unused variables and every
     argument list.  The checks of the validation walk (MissingSubselection, FragmentsOnCompositeTypes,
     FragmentSpreadTargetDefined) are the node-level theorems above; §5.8.3 / §5.8.5 / §5.5.2.3 the typed ones.
-    Last conjunct, §5.6.1–4 with §5.8.5 for the value of one argument whose definition is known (schema closed,
+    The last two conjuncts are the DOCUMENT-LEVEL statements of the walk: MissingSubselection, UndefinedFragment and
+    InvalidFragmentTarget are reported for an operation exactly when a site the operation reaches (own selection set and,
+    through spreads, every fragment it reaches) violates the rule; and the typed rules (§5.6 as far as variables and
+    shapes go, §5.8.3, §5.8.5, §5.5.2.3) are quiet for the document exactly when every reachable argument passes the
+    per-argument check with its own definition and its operation's variables (`walk_meets_every_argument`).
+    The conjunct before them, §5.6.1–4 with §5.8.5 for the value of one argument whose definition is known (schema closed,
     type a defined input type): exact against `ExecArgOK`; what the specification accepts is accepted; and exact
     against the specification when no variable stands inside a literal (else the known finding `nested-position`). -/
 theorem executable_verdict_iff_spec_partial (p : Standalone.Params) (sc : Standalone.Schema) (ast : Standalone.Ast) :
@@ -599,12 +686,31 @@ theorem executable_verdict_iff_spec_partial (p : Standalone.Params) (sc : Standa
         (ExecValues.argValueDiags S vars ty hd v = [] ↔ ExecValues.ExecArgOK S vars ty hd v) ∧
         (ExecValues.CoercesV S vars ExecValues.UsageRule ty hd v → ExecValues.argValueDiags S vars ty hd v = []) ∧
         (ExecValues.NoNestedVariable v →
-          (ExecValues.argValueDiags S vars ty hd v = [] ↔ ExecValues.CoercesV S vars ExecValues.UsageRule ty hd v))) := by
+          (ExecValues.argValueDiags S vars ty hd v = [] ↔ ExecValues.CoercesV S vars ExecValues.UsageRule ty hd v))) ∧
+    (∀ (doc : Standalone.BuiltDoc) (ty : Option Nat) (t : Standalone.Sels),
+      (.missingSubselection ∈ Standalone.Walk.walkOut p sc doc ty t ↔
+        ∃ t0 name dirs args fd, Standalone.Walk.Reaches sc doc ty t (.field (some t0) name dirs args true) ∧
+          sc.field t0 name = some fd ∧ sc.kind fd.ty = some .composite) ∧
+      (.undefinedFragment ∈ Standalone.Walk.walkOut p sc doc ty t ↔
+        ∃ f dirs, Standalone.Walk.Reaches sc doc ty t (.spread f dirs) ∧ doc.findFrag f = none) ∧
+      (.invalidFragmentTarget ∈ Standalone.Walk.walkOut p sc doc ty t ↔
+        (∃ c dirs, Standalone.Walk.Reaches sc doc ty t (.inline (some c) dirs) ∧ sc.kind c ≠ some .composite) ∨
+          (∃ fr, Standalone.Walk.Reaches sc doc ty t (.fragDef fr) ∧ sc.kind fr.tc ≠ some .composite))) ∧
+    (∀ (s : RSchema) (rast : RAst),
+      typedDiags s rast = [] ↔
+        ∀ o ∈ (ExecRules.build s rast).ops,
+          (∀ d a, (Site.dirs o.dirs).HasArg s d a → argDiags s o.vars d a = []) ∧
+          (∀ v ∈ o.vars, ∀ d a, (Site.dirs v.dirs).HasArg s d a → argDiags s [] d a = []) ∧
+          ∀ site, Reaches s (ExecRules.build s rast) (s.root o.ty) o.sels site →
+            (∀ d a, site.HasArg s d a → argDiags s o.vars d a = []) ∧ (∀ t c, site = .spread t c → spreadDiags s t c = [])) := by
   refine ⟨executable_definitions_iff _ ast, operation_definitions_iff _ ast, fragment_definitions_iff _ ast,
     fun parent sels => field_selections_iff sc sels parent, ?_, all_variables_used_iff, ?_,
     fun S vars ty hd v hS hdef => ⟨argument_value_iff_spec S hS vars ty hd v hdef,
       spec_argument_value_accepted S hS vars ty hd v hdef,
-      argument_value_iff_spec_no_nested S hS vars ty hd v hdef⟩⟩
+      argument_value_iff_spec_no_nested S hS vars ty hd v hdef⟩,
+    fun doc ty t => ⟨missing_subselection_iff_spec_doc p sc doc ty t, fragment_spread_target_defined_iff_spec_doc p sc doc ty t,
+      fragments_on_composite_types_iff_spec_doc p sc doc ty t⟩,
+    walk_meets_every_argument⟩
   · intro vs
     have h1 := variable_uniqueness_iff p (some sc) vs
     have h2 := variables_are_input_types_iff p sc vs []
